@@ -7,8 +7,11 @@ use lol_html::AsciiCompatibleEncoding;
 use lol_html::test_utils::ASCII_COMPATIBLE_ENCODINGS;
 use lol_html::verif_hooks::{VerifDecodedChunk, VerifTextDecoder};
 
-/// encodings the Lean side has an executable codec for
-const MODELLED: [&str; 3] = ["UTF-8", "windows-1252", "ISO-8859-7"];
+/// encodings the Lean side has an executable codec for: UTF-8, x-user-defined and the 28 single-byte
+/// encodings (tables generated from encoding_rs' data.rs)
+fn modelled(name: &str) -> bool {
+    find_enc(name).is_some_and(|e| e == encoding_rs::UTF_8 || e.is_single_byte())
+}
 
 fn find_enc(name: &str) -> Option<&'static Encoding> {
     ASCII_COMPATIBLE_ENCODINGS.iter().copied().find(|e| e.name() == name)
@@ -41,7 +44,41 @@ fn rerun_without_empty(enc: &'static Encoding, start: usize, parts: &[&[u8]], la
     out.iter().map(|c| c.0.as_str()).collect()
 }
 
+/// `decq <encoding> <hex>,<hex>,...`: whole-buffer decode of each item (service for gen/enc.py, which needs
+/// the index facts of the byte windows of a multi-byte case).
+fn run_decq(f: &[&str]) -> String {
+    let [name, items] = f else { return "bad-case".into() };
+    let Some(enc) = find_enc(name) else { return "bad-case".into() };
+    let mut out = vec![];
+    for it in items.split(',') {
+        let Some(b) = of_hex(it) else { return "bad-case".into() };
+        out.push(hex_or_dash(enc.decode_without_bom_handling(&b).0.as_bytes()));
+    }
+    out.join(",")
+}
+
+fn mb_observation(out: &[VerifDecodedChunk], start: usize, len: usize) -> String {
+    if len <= 300 {
+        return chunks_str(out);
+    }
+    let cat: String = out.iter().map(|c| c.0.as_str()).collect();
+    let nlast = out.iter().filter(|c| c.1).count();
+    let last_final = out.last().is_some_and(|c| c.1);
+    let mut lo = start;
+    let mut contiguous = true;
+    for c in out {
+        if c.3 != lo || c.4 < c.3 {
+            contiguous = false;
+            break;
+        }
+        lo = c.4;
+    }
+    contiguous = contiguous && lo == start + len;
+    format!("cat:{} nlast:{nlast} lastfinal:{last_final} contiguous:{contiguous}", hex_or_dash(cat.as_bytes()))
+}
+
 fn run_dec(f: &[&str]) -> String {
+    let (f, with_facts) = if f.len() == 6 { (&f[..5], true) } else { (f, false) };
     let [name, mode, start, hex, cuts] = f else { return "bad-case".into() };
     let (Some(enc), Ok(start), Some(bytes), Some(cuts)) =
         (find_enc(name), start.parse::<usize>(), of_hex(hex), nat_list(cuts))
@@ -95,7 +132,13 @@ fn run_dec(f: &[&str]) -> String {
             flag = format!(" ||ORACLE:C13:range-end {name} end {expect} want {}", start + bytes.len());
         }
     }
-    let obs = if MODELLED.contains(name) { chunks_str(&out) } else { "impl-only".into() };
+    let obs = if with_facts {
+        mb_observation(&out, start, bytes.len())
+    } else if modelled(name) {
+        chunks_str(&out)
+    } else {
+        "impl-only".into()
+    };
     let flag = also_c14(flag);
     format!("{obs}{flag}")
 }
@@ -156,7 +199,7 @@ fn run_tenc(f: &[&str]) -> String {
     } else if empty_chunk_before_end {
         flag = format!(" ||ORACLE:C13:encode-empty-chunk {name}");
     }
-    let obs = if MODELLED.contains(name) { hex_or_dash(&out) } else { "impl-only".into() };
+    let obs = if modelled(name) { hex_or_dash(&out) } else { "impl-only".into() };
     format!("{obs}{flag}")
 }
 
@@ -418,6 +461,7 @@ pub fn run(line: &str) -> String {
     let f: Vec<&str> = line.split(' ').collect();
     match f.first() {
         Some(&"dec") => run_dec(&f[1..]),
+        Some(&"decq") => run_decq(&f[1..]),
         Some(&"tenc") => run_tenc(&f[1..]),
         Some(&"resync") => run_resync(&f[1..]),
         Some(&"meta") => run_meta(&f[1..]),
